@@ -1,7 +1,8 @@
 //! C27: io_uring completions reach the call that submitted them. Real `EventLoops` built with the
 //! `io_uring` feature; callers are plain threads and coroutines of the event loop, each running a
 //! program of hooked `read`/`recv`/`write`/`send` calls on descriptors of its own (pipes, socketpairs,
-//! a closed descriptor number) with payloads that differ per descriptor. The harness thread executes
+//! a closed descriptor number, a memfd sealed against writing) with payloads that differ per descriptor; errno
+//! holds a sentinel before every call. The harness thread executes
 //! the case's script (start a caller, feed a descriptor, open a caller's gate, release a held
 //! registration, wait for a caller) and reports, per call, the return value, errno and the bytes the
 //! call's own buffer holds; at the end, how many bytes every descriptor still has unread and what
@@ -30,6 +31,8 @@ mod imp {
 
     const PATIENCE: Duration = Duration::from_millis(5000);
     const CLOSED_BASE: i32 = 900;
+    /// errno before every call
+    const STALE_ERRNO: i32 = 7777;
 
     thread_local! {
         /// the caller (index) whose next registration is to be held at the pause point
@@ -106,7 +109,8 @@ mod imp {
                         }
                     }
                     HOLD.with(|h| h.set(if call.hold && !is_co { Some(c) } else { None }));
-                    set_errno(0);
+                    // a value no kernel answer produces: a call that fails without setting errno shows it
+                    set_errno(STALE_ERRNO);
                     let ret = match call.op.as_str() {
                         "read" => syscall::read(None, fd, buf.as_mut_ptr().cast(), call.len),
                         "recv" => syscall::recv(None, fd, buf.as_mut_ptr().cast(), call.len, 0),
@@ -239,6 +243,14 @@ mod imp {
                     assert_eq!(rc, 0, "setsockopt");
                 }
                 (pair[0], pair[1])
+            }
+            "sealed" => {
+                // an empty memfd sealed against writing: writes complete with -EPERM, reads with 0
+                let fd = unsafe { libc::memfd_create(c"ocv-sealed".as_ptr(), libc::MFD_ALLOW_SEALING) };
+                assert!(fd >= 0, "memfd_create");
+                let rc = unsafe { libc::fcntl(fd, libc::F_ADD_SEALS, libc::F_SEAL_WRITE) };
+                assert_eq!(rc, 0, "F_ADD_SEALS");
+                (fd, -1)
             }
             _ => {
                 // a descriptor number that is not open
@@ -447,7 +459,7 @@ mod imp {
         let mut sink = Vec::new();
         for r in &res {
             match r.kind.as_str() {
-                "pipe_r" | "sock" => left.push(json!(drain(r.fd).len())),
+                "pipe_r" | "sock" | "sealed" => left.push(json!(drain(r.fd).len())),
                 _ => left.push(json!(0)),
             }
             match r.kind.as_str() {
